@@ -20,6 +20,11 @@ CONSTANTS NAtoms,      \* atoms a1..aK of a scenario
           MaxDepth,    \* nesting of parentheses
           MaxNeg,      \* consecutive "!"
           Pads,        \* subset of BOOLEAN: ways to write a group
+          Again,       \* ways a second, related text is parsed afterwards in the same process:
+                       \*   "respaced"    the same text with other white space between the tokens
+                       \*   "inner_space" the same text, but quoted arguments with other white space INSIDE the quotes
+                       \*                 (a different regex: the harness builds the flows for it anew)
+                       \*   "recased"     the same text with the letters of the regexes in the other case
           JuxtLowest, JuxtInGroup, UnaryAtRparen
 VARIABLES toks, stack, phase, natoms, lastUnary, accepted, fparse, feval, uses, mon, obs
 vars == <<toks, stack, phase, natoms, lastUnary, accepted, fparse, feval, uses, mon, obs>>
@@ -101,16 +106,27 @@ Close ==
 
 Rows == [r \in 1..(2 ^ NAtoms) |-> [i \in 1..NAtoms |-> ((r - 1) \div (2 ^ (i - 1))) % 2 = 1]]
 
+\* flowfilter.parse(text) and filter(flow) for every flow
+Judged ==
+  LET d == DocVal(Top)
+      c == CodeVal(Top)
+      p == [k |-> "parse", toks |-> toks, ok |-> accepted, ast |-> d, fparse |-> fparse, feval |-> feval,
+            uses |-> SetToSortSeq(uses, LAMBDA a, b : TRUE)]
+  IN IF accepted
+     THEN <<p, [k |-> "verdicts", got |-> [r \in 1..Len(Rows) |-> Eval(c, Rows[r])], facts |-> Rows]>>
+     ELSE <<p>>
+
 Finish ==
   /\ Live /\ phase = "operator" /\ Len(stack) = 1
   /\ phase' = "done" /\ UNCHANGED <<toks, stack, natoms, lastUnary, accepted, fparse, feval, uses>>
-  /\ LET d == DocVal(Top)
-         c == CodeVal(Top)
-         p == [k |-> "parse", toks |-> toks, ok |-> accepted, ast |-> d, fparse |-> fparse, feval |-> feval,
-               uses |-> SetToSortSeq(uses, LAMBDA a, b : TRUE)]
-     IN Emit(IF accepted
-             THEN <<p, [k |-> "verdicts", got |-> [r \in 1..Len(Rows) |-> Eval(c, Rows[r])], facts |-> Rows]>>
-             ELSE <<p>>)
+  /\ Emit(Judged)
+
+\* a related text is parsed in the same process afterwards: parse() is a function of its argument alone, so the
+\* structure, and with it both readings, are those of the first text (the atoms may be other regexes)
+Reparse(how) ==
+  /\ Live /\ phase = "done" /\ accepted
+  /\ phase' = "done2" /\ UNCHANGED <<toks, stack, natoms, lastUnary, accepted, fparse, feval, uses>>
+  /\ Emit(Judged)
 
 Next == \/ \E i \in 1..NAtoms : Atom(i)
         \/ Not
@@ -120,6 +136,7 @@ Next == \/ \E i \in 1..NAtoms : Atom(i)
         \/ Juxt
         \/ Close
         \/ Finish
+        \/ \E how \in Again : Reparse(how)
 Spec == Init /\ [][Next]_vars
 Report == mon.bad # <<>> => PrintT(<<"BAD", mon.bad>>)
 =============================================================================
